@@ -169,7 +169,9 @@ func TreeToXML(n *Node, t Tree) []*XNode {
 func (x *XNode) Render(b *bytes.Buffer, ns string) {
 	b.WriteString("<" + x.Name)
 	if ns != "" {
-		b.WriteString(" xmlns=\"" + ns + "\"")
+		b.WriteString(" xmlns=\"")
+		xml.EscapeText(b, []byte(ns))
+		b.WriteString("\"")
 	}
 	b.WriteString(">")
 	if len(x.Children) == 0 {
